@@ -2,6 +2,7 @@ package main
 
 import (
 	"fmt"
+	"os"
 	"strings"
 
 	"github.com/scottyw/tetromino/gameboy/audio"
@@ -103,16 +104,23 @@ func (r *cartRun) do(op string) string {
 	w := strings.Fields(op)
 	var out string
 	switch {
-	case w[0] == "reset" && (len(w) == 4 || len(w) == 5):
+	case w[0] == "reset" && (len(w) == 4 || len(w) == 5 || len(w) == 6):
 		typ, rsz, ramsz := uint8(unhex(w[1])), uint8(unhex(w[2])), uint8(unhex(w[3]))
 		length := defaultLen(rsz)
-		if len(w) == 5 {
+		if len(w) >= 5 {
 			length = unhex(w[4])
 		}
 		r.typ, r.rsz, r.ramsz = typ, rsz, ramsz
 		r.m = nil
 		r.resets++
 		img := cartImage(typ, rsz, ramsz, length)
+		if len(w) == 6 {
+			// an image whose pages from <erase> on are erased flash (all FF): a private copy
+			img = append([]byte(nil), img...)
+			for i := unhex(w[5]) * 0x4000; i >= 0 && i < len(img); i++ {
+				img[i] = 0xff
+			}
+		}
 		out = guard(func() string {
 			r.m = newMapper(img)
 			return "ok"
@@ -452,6 +460,54 @@ func cartGen(c *ctx) {
 				}
 			}
 			r.do("dump")
+		}
+	}
+
+	// Part C3: images whose last pages are erased (all FF): the bank arithmetic goes by the declared size, not by content
+	for _, t := range []int{0x01, 0x05, 0x11, 0x19} {
+		for _, rs := range []int{2, 3, 4} {
+			pages := 2 << uint(rs)
+			for _, erase := range []int{pages - 1, pages * 3 / 4, 2} {
+				if r.do(fmt.Sprintf("reset %02x %02x 00 %x %x", t, rs, pages*0x4000, erase)) != "ok" {
+					continue
+				}
+				for _, b := range []int{0, 1, 2, erase - 1, erase, erase + 1, pages - 1, pages, pages + 1, pages + erase, 0x21, 0x105, 2*pages - 1} {
+					switch t {
+					case 0x01:
+						r.w(0x2000, b&0x1f)
+						r.w(0x4000, b>>5&3)
+					case 0x05:
+						r.w(0x2100, b&0xff)
+					case 0x11:
+						r.w(0x2000, b&0xff)
+					default:
+						r.w(0x2000, b&0xff)
+						r.w(0x3000, b>>8&1)
+					}
+					r.win("erased")
+				}
+			}
+		}
+	}
+	// Part C4: more than 65 536 stores between two dumps (every byte of four banks written twice), per family
+	if c.thorough() || os.Getenv("VERIF_PROP") == "C09" || os.Getenv("VERIF_PROP") == "" {
+		for _, t := range []int{0x13, 0x03, 0x1b} {
+			if r.reset(t, 2, 3, -1) != "ok" {
+				continue
+			}
+			r.w(0x0000, 0x0a)
+			r.w(0x6000, 0x01)
+			r.do("dump")
+			for pass := 0; pass < 2; pass++ {
+				for b := 0; b < 4; b++ {
+					r.w(0x4000, b)
+					for o := 0; o < 0x2000; o++ {
+						r.w(0xa000+o, (o*7+b*3+pass*0x55)&0xff)
+					}
+				}
+			}
+			r.do("dump")
+			r.classify("dump-after-65536", r.lastOut)
 		}
 	}
 
